@@ -38,6 +38,8 @@ class Roles:
     def __init__(self, F):
         self.F = F
         self.table = {}
+        self.deps_from = None
+        self.td_make = self.td_check = None
         self._resolve_types()
         self._resolve_store_methods()
         self._resolve_store_queries()
